@@ -14,7 +14,6 @@ import (
 	"errors"
 	"fmt"
 	"io"
-	"os"
 	"sort"
 	"strconv"
 	"strings"
@@ -929,9 +928,6 @@ func (rn *runner) exDatagram() string {
 			}
 			if len(got) != len(payload) || string(got) != string(payload) {
 				return fmt.Sprintf("corrupt n=%d", len(got))
-			}
-			if os.Getenv("LIMITS_DEBUG") != "" {
-				return fmt.Sprintf("ok try=%d size=%d first=%d", try, size, tl.MaxDatagramPayloadSize)
 			}
 			return "ok"
 		}
